@@ -5,6 +5,7 @@ From K Require Import Model.Bus Model.Cost Model.Addressing Proofs.RegProofs Pro
 From K Require Import Model.Cost Model.Addressing Model.Exec Proofs.MemProofs Proofs.StepProofs Proofs.CtlProofs Proofs.StepRefines.
 From K Require Import Proofs.MovProofs Proofs.StepRefinesCtl Proofs.StepRefines2.
 From K Require Import Proofs.StepRefines4.
+From K Require Import Proofs.StepRefines6.
 Open Scope Z_scope.
 
 (* ADD / SUB / CMP / ADDX: for every width 8, 16, 32 (ADDX: 8), all operands and every CCR value the
@@ -160,6 +161,16 @@ Theorem step_divxu_word :
     step s = Ok n (set_opc (pc s) s').
 Proof. exact step_divxu_w_proof. Qed.
 
+(* ADD CMP SUB OR XOR AND .L #xx:32,ERd - all three instruction words in memory, any state *)
+Theorem step_arith_logic_immediate_long :
+  forall s w h l w3 w4 o imm rd n,
+    cpu_ok s -> bus_bytes_ok s -> fault s = false -> pc s mod 2 = 0 -> 0 <= pc s -> pc s + 6 < 4294967296 ->
+    mem_read SW s (pc s) = Some w -> mem_read SW s (pc s + 2) = Some h -> mem_read SW s (pc s + 4) = Some l ->
+    decode_ref w h l w3 w4 = Some (IAlu2I o SL imm rd, 6) ->
+    cs KI 3 (post_fetch3 s) = Ok n (post_fetch3 s) ->
+    exists s', sem_ref (IAlu2I o SL imm rd) 6 s = Some s' /\ step s = Ok n (set_opc (pc s + 4) s').
+Proof. exact step_alu2_imm_l_proof. Qed.
+
 Print Assumptions arith2_kernel.
 Print Assumptions arith1_kernel.
 Print Assumptions divxu_kernel.
@@ -174,3 +185,4 @@ Print Assumptions step_mulxu.
 Print Assumptions step_divxu_byte.
 Print Assumptions step_arith_logic_immediate_word.
 Print Assumptions step_divxu_word.
+Print Assumptions step_arith_logic_immediate_long.
